@@ -226,9 +226,11 @@ class MCMCProp(Prop):
     search_budget = {"quick": 40, "thorough": 300}
     assumptions = ["DrawSet.draw and random.random() are assumed uniform; the run injects deterministic draws from a private PRNG",
                    "the order in which networkx lists a vertex's edges is not modelled: corner lists are validated as sets",
-                   "the search-loop counters, logging and acceptance-ratio bookkeeping are not modelled (a rejected proposal is a stutter step)"]
+                   "logging and the acceptance-ratio list are not modelled"]
     model_scope = ("modelled: get_all_edges (as a set), is_edge_choice_suitable, get_motif_vertices, swap_condition (pairing, proposal "
-                   "attributes as coded, Metropolis ratio), application of an accepted swap; not modelled: the two while-loops of rewire()")
+                   "attributes as coded, Metropolis ratio), application of an accepted swap, and (Model/Rewire.lean) the whole of rewire(): both while-loops "
+                   "with their counters and limits, the drawable edge set kept in step with the graph, the order in which draws and uniform numbers "
+                   "are consumed; the whole-loop replay runs when every draw and every get_all_edges() result could be observed")
 
     modes = ["full", "full", "sparse", "zeros"]
     min_topologies = 1
@@ -320,6 +322,7 @@ class MCMCProp(Prop):
             params[TN.SEARCH_LIMIT] = case["limits"][1]
         prng = _random.Random(case["rseed"])
         budget = {"n": 0, "last_r": None}
+        loop = {"events": []}                  # the draws of the whole loop as the code consumed them (Model/Rewire.lean)
 
         def tick():
             budget["n"] += 1
@@ -359,6 +362,7 @@ class MCMCProp(Prop):
             res = orig(self_, G, e0s, e1s, u0, v0)
             rec["result"] = bool(res)
             rec["r"] = rs(budget["last_r"]) if budget["last_r"] is not None else "0"
+            rec["r_used"] = budget["last_r"] is not None
             return res
         obs = {"exhausted": False, "ctor_exc": None}
         if case.get("retarget"):
@@ -411,7 +415,28 @@ class MCMCProp(Prop):
         import contextlib
         hook = hasattr(mod.MarkovChainMonteCarloRewiring, "swap_condition")   # where proposals are observed
         obs["hook_missing"] = not hook
-        with (patched(mod.MarkovChainMonteCarloRewiring, "swap_condition", wrapped) if hook else contextlib.nullcontext()), \
+        # the whole-loop replay needs every EdgeSet.draw() and every get_all_edges() result; when the code has neither method
+        # any more the loop is simply not observed (the per-proposal replay above does not depend on them)
+        loop_hooks = hasattr(draw_set.DrawSet, "draw") and hasattr(mod.MarkovChainMonteCarloRewiring, "get_all_edges")
+        stack = contextlib.ExitStack()
+        if loop_hooks:
+            orig_draw = draw_set.DrawSet.draw
+            orig_gae = mod.MarkovChainMonteCarloRewiring.get_all_edges
+
+            def draw_w(self_):
+                e = orig_draw(self_)
+                loop["events"].append({"e": list(e) if isinstance(e, tuple) else repr(e), "given": []})
+                return e
+
+            def gae_w(self_, G, u0, edge):
+                res = orig_gae(self_, G, u0, edge)
+                if loop["events"]:
+                    loop["events"][-1]["given"] = [list(x) for x in res]
+                    loop["events"][-1]["focal"] = u0
+                return res
+            stack.enter_context(patched(draw_set.DrawSet, "draw", draw_w))
+            stack.enter_context(patched(mod.MarkovChainMonteCarloRewiring, "get_all_edges", gae_w))
+        with stack, (patched(mod.MarkovChainMonteCarloRewiring, "swap_condition", wrapped) if hook else contextlib.nullcontext()), \
                 installed(sem):
             try:
                 Gout = mc.rewire()
@@ -425,6 +450,7 @@ class MCMCProp(Prop):
             except mod.ErrorMarkovChainMonteCarloRewiring as e:
                 obs["raised"] = str(e)[:200]
         obs["calls"] = calls
+        obs["loop"] = loop if loop_hooks else None
         obs["rng_unexpected"] = sem.summary()["n_unexpected"]
         obs["final"] = final
         obs["input_untouched"] = (node_state(net.G), snapshot(net.G)) == before
@@ -440,7 +466,37 @@ class MCMCProp(Prop):
         for st, c, a in zip(steps, obs["calls"], self._afters(obs)):
             if c.get("result") and a is not None:
                 st["after_impl"] = a
-        return {"op": "c11", "jd": case["jd"], "edges": case["edges"], "names": case["names"], "target": case["target"], "steps": steps}
+        req = {"op": "c11", "jd": case["jd"], "edges": case["edges"], "names": case["names"], "target": case["target"], "steps": steps}
+        if self._loop_observed(obs):
+            lim = obs["limits_used"]
+            # one entry per proposal that was observed to its end: the uniform number it consumed, or null
+            req["loop"] = {"climit": lim[0], "slimit": lim[1],
+                           "rs": [(c["r"] if c.get("r_used") else None) for c in obs["calls"] if "result" in c],
+                           "draws": [{"e": ev["e"], "given": ev["given"]} for ev in obs["loop"]["events"]]}
+        return req
+
+    @staticmethod
+    def _loop_observed(obs):
+        """the whole loop is replayed when every draw was seen as a pair of vertex ids, every random decision went through the
+        script, and the limits in force are natural numbers"""
+        lp, lim = obs.get("loop"), obs.get("limits_used") or [None, None]
+        return bool(lp and lp["events"] and not obs.get("rng_unexpected")
+                    and all(isinstance(x, int) and not isinstance(x, bool) and x >= 0 for x in lim)
+                    and all(isinstance(ev["e"], list) and len(ev["e"]) == 2 and all(isinstance(x, int) for x in ev["e"])
+                            for ev in lp["events"]))
+
+    @staticmethod
+    def _loop_outcome(obs):
+        if obs.get("exhausted"):
+            return "exhausted"
+        r = obs.get("raised")
+        if r is not None:
+            for key, tag in (("divide by zero", "raise-divide-by-zero"), ("IndexError", "raise-index"), ("already present", "raise-edge-present"),
+                             ("edge count", "raise-edge-count")):
+                if key in r:
+                    return tag
+            return "raise-other"
+        return "done" if obs.get("final") is not None else "unknown"
 
     def _afters(self, obs):
         calls = obs["calls"]
@@ -467,6 +523,18 @@ class MCMCProp(Prop):
         lim = (obs.get("limits_used") or [None])[0]
         if obs.get("final") is not None and not obs.get("exhausted") and "raised" not in obs and isinstance(lim, int):
             m["accepted_at_end"] = lim + 1          # `while convergence_count <= limit`: the loop of this code admits limit + 1 swaps
+        if "loop" in reply and self._loop_observed(obs):
+            # the attribute assignment the implementation exhibits (known finding: as coded; repaired: intended); both are models
+            # of the loop, the oracle tells them apart
+            lc, lf = reply["loop"]["coded"], reply["loop"]["fixed"]
+            pick = lf if (obs.get("final") is not None and lf["final"] == obs["final"] and lc["final"] != obs["final"]) else lc
+            out = pick["outcome"]
+            m["loop"] = {"outcome": out, "accepted": pick["count"],
+                         "trace": [[t["u0"], t["v0"], sorted(t["e0s"]), sorted(t["e1s"]), t["decision"]] for t in pick["trace"]]}
+            if out == "done":
+                m["loop"]["final"] = pick["final"]
+                m["loop"]["unused_draws"] = pick["draws_left"]
+                m["loop"]["unused_uniforms"] = pick["rs_left"]
         return m
 
     def project(self, case, obs):
@@ -487,6 +555,20 @@ class MCMCProp(Prop):
         lim = (obs.get("limits_used") or [None])[0]
         if obs.get("final") is not None and not obs.get("exhausted") and "raised" not in obs and isinstance(lim, int):
             p["accepted_at_end"] = sum(1 for c in obs["calls"] if c.get("result"))
+        if self._loop_observed(obs):
+            out = self._loop_outcome(obs)
+            tr = []
+            for c in obs["calls"]:
+                if "result" in c:
+                    d = "accept" if c["result"] else "reject"
+                else:
+                    d = out if out in ("raise-divide-by-zero", "raise-index") else "unobserved"
+                tr.append([c["u0"], c["v0"], sorted(c["e0s"]), sorted(c["e1s"]), d])
+            p["loop"] = {"outcome": out, "accepted": sum(1 for c in obs["calls"] if c.get("result")), "trace": tr}
+            if out == "done":
+                p["loop"]["final"] = obs["final"]
+                p["loop"]["unused_draws"] = 0
+                p["loop"]["unused_uniforms"] = 0
         return p
 
     # ------------------------------------------------------------------ oracle clauses
@@ -608,6 +690,12 @@ class MCMCProp(Prop):
             hist["accepted_swaps"] = hist.get("accepted_swaps", 0) + sum(1 for c in obs["calls"] if c.get("result"))
             if obs["exhausted"]:
                 hist["runs_cut_short"] = hist.get("runs_cut_short", 0) + 1
+            if self._loop_observed(obs):
+                hist["whole_loop_replayed"] = hist.get("whole_loop_replayed", 0) + 1
+                k = "whole_loop_outcome_" + self._loop_outcome(obs)
+                hist[k] = hist.get(k, 0) + 1
+                hist["whole_loop_draws"] = hist.get("whole_loop_draws", 0) + len(obs["loop"]["events"])
+                hist["whole_loop_uniforms"] = hist.get("whole_loop_uniforms", 0) + sum(1 for c in obs["calls"] if c.get("r_used"))
             shared = sum(1 for _, row in case["jd"] if sum(row) >= 2)
             hist["vertices_in_two_or_more_motifs"] = hist.get("vertices_in_two_or_more_motifs", 0) + shared
 
